@@ -49,13 +49,17 @@ Theorem C05_find_undo_state_is_walk :
 Proof. exact find_undo_state_is_walk. Qed.
 Print Assumptions C05_find_undo_state_is_walk.
 
-(* reset_to_state installs exactly the logged state: lists, every patch's commit, head *)
+(* reset_to_state installs exactly the logged state: the three lists, the head, and for every
+   name the commit the logged state records (and no patch the logged state does not have).
+   The premise on the transaction says that it only knows patches that are in its lists
+   (true of every transaction of a well-formed stack: C01). *)
 Theorem C05_reset_installs_state :
   forall st t t',
+    (forall n, t_patch t n <> None -> In n (t_all t)) ->
     reset_to_state st t = TOk t' ->
     t_applied t' = s_applied st /\ t_unapplied t' = s_unapplied st /\ t_hidden t' = s_hidden st
     /\ t_head t' = Some (s_head st)
-    /\ (forall n, In n (all_of st) -> NoDup (map fst (s_patches st)) ->
+    /\ (forall n, NoDup (map fst (s_patches st)) ->
                   t_patch t' n = pm_get (s_patches st) n).
-Proof. exact reset_installs_state. Qed.
+Proof. exact reset_installs_state_consistent. Qed.
 Print Assumptions C05_reset_installs_state.
